@@ -621,7 +621,10 @@ pub fn pivot_script_strategy() -> impl Strategy<Value = PivotScript> {
         3 => any::<u64>().prop_map(Tail::Hash),
         1 => Just(Tail::Real),
     ];
-    (proptest::collection::vec(any::<u16>(), 0..6), tail).prop_map(|(prefix, tail)| PivotScript { prefix, tail })
+    prop_oneof![
+        9 => (proptest::collection::vec(any::<u16>(), 0..6), tail).prop_map(|(prefix, tail)| PivotScript { prefix, tail }),
+        1 => Just(PivotScript::real()),
+    ]
 }
 
 /// Explicit pivot choices followed by "always 0": what the DFS uses.
